@@ -425,7 +425,9 @@ def _pools(draw):
             hosts.append(name + "." + domain)
     # IPv4
     ips = []
-    for _ in range(draw(st.integers(2, 8))):
+    # usually 2-8 originals; one history in four has a big pool (an obfuscator that has issued more
+    # than ten substitutes is a different regime: two-digit counters, string vs numeric ordering)
+    for _ in range(draw(st.one_of(st.integers(2, 8), st.integers(2, 8), st.integers(2, 8), st.integers(11, 16)))):
         how = draw(st.sampled_from(["fresh", "fresh", "fresh", "extend", "prepend", "range", "range", "loop"]))
         ip = None
         if how in ("extend", "prepend") and ips:
@@ -471,7 +473,7 @@ def _pools(draw):
 def _line(draw, classes):
     toks = []
     for _ in range(draw(st.integers(1, 5))):
-        toks.append([draw(classes), draw(st.integers(0, 7)), draw(st.integers(0, 17)),
+        toks.append([draw(classes), draw(st.integers(0, 15)), draw(st.integers(0, 17)),
                      draw(st.integers(0, 15)), draw(st.sampled_from(FILLERS))])
     return {"pre": draw(st.sampled_from(FILLERS)), "toks": toks}
 
@@ -489,7 +491,13 @@ def _history(draw, max_ops):
         nlines = 1 if kind == "str" else draw(st.integers(1, 4))
         no_obf = draw(st.one_of(st.just([]), st.just([]), st.just([]), st.just([]), st.lists(
             st.sampled_from(["ip", "hostname", "mac", "keyword"]), min_size=1, max_size=2, unique=True)))
-        ops.append({"op": kind, "no_obf": no_obf, "lines": [draw(_line(classes)) for _ in range(nlines)]})
+        lines = [draw(_line(classes)) for _ in range(nlines)]
+        if kind != "str" and draw(st.integers(0, 5)) == 0:
+            # a sweep: consecutive originals of one class, so that big pools are actually used up
+            cls = draw(st.sampled_from(["ip", "ip", "host", "mac"]))
+            start = draw(st.integers(0, 15))
+            lines = [{"pre": "", "toks": [[cls, start + 4 * r + c, 0, 0, " "] for c in range(4)]} for r in range(4)]
+        ops.append({"op": kind, "no_obf": no_obf, "lines": lines})
     case["ops"] = ops
     return case
 
